@@ -558,7 +558,7 @@ func (fw *fmtWriter) Fprint(a ...interface{}) (n int, err error) {
 		// early return if a previous error has been encountered.
 		return 0, nil
 	}
-	n, err = fmt.Fprint(fw.w, a...)
+	n, err = fmt.Fprint(shortWriteChecker{w: fw.w}, a...)
 	fw.size += int64(n)
 	fw.err = err
 	return n, err
@@ -571,7 +571,7 @@ func (fw *fmtWriter) Fprintf(format string, a ...interface{}) (n int, err error)
 		// early return if a previous error has been encountered.
 		return 0, nil
 	}
-	n, err = fmt.Fprintf(fw.w, format, a...)
+	n, err = fmt.Fprintf(shortWriteChecker{w: fw.w}, format, a...)
 	fw.size += int64(n)
 	fw.err = err
 	return n, err
@@ -585,9 +585,25 @@ func (fw *fmtWriter) Fprintln(a ...interface{}) (n int, err error) {
 		// early return if a previous error has been encountered.
 		return 0, nil
 	}
-	n, err = fmt.Fprintln(fw.w, a...)
+	n, err = fmt.Fprintln(shortWriteChecker{w: fw.w}, a...)
 	fw.size += int64(n)
 	fw.err = err
+	return n, err
+}
+
+// shortWriteChecker reports io.ErrShortWrite when the underlying writer accepts
+// fewer bytes than it was given without returning an error (as io.Copy and
+// bufio.Writer do), so that output never continues after a hole.
+type shortWriteChecker struct {
+	w io.Writer
+}
+
+// Write writes p to the underlying writer.
+func (c shortWriteChecker) Write(p []byte) (n int, err error) {
+	n, err = c.w.Write(p)
+	if n < len(p) && err == nil {
+		err = io.ErrShortWrite
+	}
 	return n, err
 }
 
